@@ -83,7 +83,7 @@ def _sequential_run(nag, t3_on, warm):
             OC.Orchestrator().run_turn(W.make_ctx(cfg, turn_id=2, agent="A", enc=None), st, "warm up")
         mark = len(spy.records)
         for a in ["A", "B"][:nag]:
-            ctx = W.make_ctx(cfg, turn_id=3, agent=a, enc=None)
+            ctx = W.make_ctx(cfg, turn_id=3, agent=a, enc=None, now_ms=0, seed=0)
             lines.append(OC.Orchestrator().run_turn(ctx, st, "alpha beta").line)
     return lines, list(spy.records[mark:]), _store_dump(st)
 
@@ -99,7 +99,7 @@ def _driver(nag, t3_on, warm, en, ag, workers):
                 OC.Orchestrator().run_turn(W.make_ctx(cfg, turn_id=2, agent="A", enc=None), st, "warm up")
             mark = len(spy.records)
             _set_gate(cfg, en, ag, workers)
-            ctx = W.make_ctx(cfg, turn_id=3, agent="driver", enc=None)
+            ctx = W.make_ctx(cfg, turn_id=3, agent="driver", enc=None, now_ms=0, seed=0)
             res = P._run_agents_parallel_batch(ctx, st, [(a, "alpha beta") for a in ["A", "B"][:nag]])
     finally:
         if saved is None:
@@ -119,7 +119,7 @@ def _mask(records):
       targets=("clematis/engine/orchestrator/parallel.py:_run_agents_parallel_batch", "clematis/engine/orchestrator/parallel.py:_agents_parallel_enabled", "clematis/engine/orchestrator/parallel.py:_clone_ctx_for_agent",
                "clematis/engine/orchestrator/parallel.py:_run_turn_compute", "clematis/engine/orchestrator/core.py:Orchestrator.run_turn"),
       stubs=("TurnSpy log/snapshot capture; orchestrator._append_jsonl_unbuffered -> in-memory sink (identity-normalised)",),
-      bounds="real pipeline (T1..T4, apply, health) for 1..2 agents with disjoint graphs on world W3+g:two / 3 episodes embedded by the repository's BGEAdapter(dim=32); perf.parallel.enabled and .agents symbolic booleans, max_workers unbounded symbolic int; T3 on / off (CLEMATIS_T3_DENY=1); with or without a previous turn on the state (cache manager present)",
+      bounds="real pipeline (T1..T4, apply, health) for 1..2 agents with disjoint graphs on world W3+g:two / 3 episodes embedded by the repository's BGEAdapter(dim=32); perf.parallel.enabled and .agents symbolic booleans, max_workers unbounded symbolic int; T3 on / off (CLEMATIS_T3_DENY=1); with or without a previous turn on the state (cache manager present); driver context with the falsy-but-set fields now_ms=0, seed=0",
       split={"nag": [1, 2] if H.THOROUGH else [2], "t3_on": [False, True] if H.THOROUGH else [True], "warm": [False, True] if H.THOROUGH else [False]},
       note="C10 with the real stage pipeline: the batch driver returns the same per-agent utterances, leaves the same store contents and state version, and emits the same log records (identity-normalised; ms* timing fields of non-identity streams masked) in the same order as a plain sequential loop of run_turn over the agents — for every setting of the agent-parallel gate (flags, worker count)")
 def real_pipeline(nag: int, t3_on: bool, warm: bool, en: bool, ag: bool, workers: int) -> bool:
